@@ -46,6 +46,8 @@ PureVle ==
           /\ Chk("C04.equal_chemical_potential", <<E.case, E.Tr, PureMuDefect(r.v, r.l), l>>, PureMuDefect(r.v, r.l), "0", TolPure,
                  FAdd("1", FAdd(FAbs(r.v.mu_res_T[1]), FAbs(r.l.mu_res_T[1]))), "0")
           /\ Report("C04.vapor_less_dense", <<E.case, E.Tr, r.v.rho, r.l.rho, l>>, FLt(r.v.rho, r.l.rho))
+          \* "solving at given T and at the resulting p are mutually inverse": on the calibrated records the solve at the resulting pressure succeeds
+          /\ (E.calibrated => Report("C04.found_at_pressure", <<E.case, E.Tr, E.inverse, l>>, E.inverse.ok))
           /\ (E.inverse.ok => CSamePhase("C04.T_p_inverse", <<E.case, E.Tr, "vapor">>, E.inverse.v, r.v, TolGuess)
                                 /\ CSamePhase("C04.T_p_inverse", <<E.case, E.Tr, "liquid">>, E.inverse.l, r.l, TolGuess))
           /\ \A k \in 1..Len(E.guesses) :
